@@ -481,11 +481,69 @@ def rule_number_text(chk, fb):
         chk.ob(re_, "%s" % d, not casts, where=fb.loc(d) if not casts else "%s:%s" % (b["file"], casts[0]["ln"]), detail="float-to-int casts on the number-to-text path: %d%s" % (len(casts), " (whole numbers beyond the integer range saturate)" if casts else ""))
 
 
+FILTERS = ("filter", "filter_map", "skip", "take", "skip_while", "take_while", "step_by", "nth", "find", "last", "next")
+
+
+def rule_rich_text_value(chk, fb):
+    """The value text of a rich-text cell is the concatenation of all its runs (that is what is compared, exported and
+    interned): the function that computes it must visit every run, whatever the run contains."""
+    from cfg import CFG
+
+    RICH = "structs::rich_text::RichText"
+    r = chk.rule(
+        "C01.f",
+        "a rich text's value is all of its runs: the function that renders a RichText to plain text reads every element of the run list - no filtering / truncating iterator adaptor on it, and in a loop over it every path through the body fetches the run's text",
+        floor=1,
+    )
+    for d, b in sorted(fb.mir.items()):
+        if b.get("self_ty") != RICH or b["kind"] != "AssocFn" or b["argc"] != 1:
+            continue
+        rt = fb.ty(b["locals"][0]["t"])
+        if not ("String" in rt or "Cow<" in rt):
+            continue
+        if "rich_text_elements" not in __import__("e2").direct_fields(b, RICH):
+            continue
+        bodies = [d] + [c for c in fb.mir if c.startswith(d + "::{closure")]
+        filt = []
+        gets = 0
+        for bd in bodies:
+            for bi, t in fb.calls_in(fb.mir[bd]):
+                f = t.get("fn", "")
+                o = t.get("orig", f)
+                if o.startswith("std::iter::Iterator::") and o.split("::")[-1] in FILTERS and bd == d and not o.endswith("::next"):
+                    filt.append(o.split("::")[-1])
+                if f.endswith("TextElement::get_text") or any(x.get("cfn", "").endswith("TextElement::get_text") for x in t.get("args", [])):
+                    gets += 1
+        if gets == 0 and not d.endswith("::get_text"):
+            continue  # another String-valued method of RichText (key, html ...), not the plain-text rendering
+        cfg = CFG(b)
+        bypass = False
+        W = [bi for bi, t in fb.calls_in(b) if t.get("fn", "").endswith("TextElement::get_text")]
+        for tail, head in cfg.back_edges():
+            body = cfg.natural_loop(tail, head)
+            if not any(w in body for w in W):
+                continue
+            seen = set()
+            work = [head]
+            while work:
+                x = work.pop()
+                if x in seen or x in W or x not in body:
+                    continue
+                seen.add(x)
+                work.extend(z for z in cfg.succ[x] if z != head)
+            if tail in seen:
+                bypass = True
+        chk.touch(d)
+        chk.ob(r, "%s" % d.split("::", 2)[-1], gets > 0 and not filt and not bypass, where=fb.loc(d),
+               detail="runs fetched: %s; filtering adaptors on the run list: %s; a path through the loop skips a run: %s" % (gets > 0, filt or "none", bypass))
+
+
 def run(chk, fb, tier):
     rule_number_text(chk, fb)
     rule_kind_table(chk, fb)
     rule_escape(chk, fb)
     rule_key(chk, fb)
+    rule_rich_text_value(chk, fb)
     from props import C06
 
     C06.rule_variants(chk, fb, "C01.a.variants")
